@@ -675,7 +675,7 @@ pub fn cases(thorough: bool) -> Vec<Case> {
     for (k, p) in progs.iter().enumerate() {
         for (si, s) in [Sched::default(), Sched { uniform: Some(1), at: BTreeMap::new() }, Sched { uniform: Some(7), at: BTreeMap::new() }].into_iter().enumerate() {
             // faults / single deviations at every callback index: on a subset (every 6th program), default schedule
-            let explore = si == 0 && (thorough || k % 15 == 0);
+            let explore = si == 0 && k % (if thorough { 3 } else { 15 }) == 0;
             v.push(Case::Write { p: p.clone(), level: [0u32, 5, 11][k % 3], sched: s, explore_faults: explore });
         }
     }
@@ -685,7 +685,7 @@ pub fn cases(thorough: bool) -> Vec<Case> {
     for (k, p) in xprogs.iter().enumerate() {
         for l in L4::ALL {
             for (si, s) in [Sched::default(), Sched { uniform: Some(1), at: BTreeMap::new() }, Sched { uniform: Some(5), at: BTreeMap::new() }].into_iter().enumerate() {
-                let explore = si == 0 && (thorough || k % 9 == 0);
+                let explore = si == 0 && k % (if thorough { 2 } else { 9 }) == 0;
                 v.push(Case::Extract { p: p.clone(), layers: l, sched: s, explore_faults: explore });
             }
         }
